@@ -188,4 +188,38 @@ theorem substring_iff_prefix (P T R : WFN) (a : Value) (hT : ∀ a ∈ T, a.kind
     rw [bindFS_append]; simp [hxy]
   rw [this, trim_snoc_keep _ _ hy]
 
+/-! ### histories of `Vulnerable` on shared values -/
+
+/-- The verdict the property states: a function of the repository name of the
+    vulnerability and of the record's repository CPE. -/
+def vulnVerdict (name : Str) (record : WFN) : Bool :=
+  match unbind name with
+  | none => false
+  | some v => gate v record
+
+/-- The verdicts of a history computed from the current field values alone
+    (what the vulnerability's repository holds is not tracked at all). -/
+def vExpected : Str → WFN → List VOp → List Bool
+  | _, _, [] => []
+  | _, r, .name s :: ops => vExpected s r ops
+  | n, r, .held _ :: ops => vExpected n r ops
+  | n, _, .record w :: ops => vExpected n w ops
+  | n, r, .call :: ops => vulnVerdict n r :: vExpected n r ops
+
+theorem vulnCall_verdict (name : Str) (held record : WFN) : (vulnCall name held record).1 = vulnVerdict name record := by
+  unfold vulnCall vulnVerdict
+  cases unbind name <;> rfl
+
+theorem vRun_eq_expected (st : HSt) (ops : List VOp) : vRun st ops = vExpected st.name st.record ops := by
+  induction ops generalizing st with
+  | nil => simp [vRun, vExpected]
+  | cons op ops ih =>
+    cases op with
+    | name s => simp only [vRun, vOpStep, vExpected]; exact ih _
+    | held w => simp only [vRun, vOpStep, vExpected]; exact ih _
+    | record w => simp only [vRun, vOpStep, vExpected]; exact ih _
+    | call =>
+      simp only [vRun, vOpStep, vExpected, vulnCall_verdict]
+      rw [ih]
+
 end ClairModel.Cpe
